@@ -1,4 +1,5 @@
 import Physt.Driver
+import Physt.Model.JsonND
 import Physt.Model.HistND
 import Physt.Model.Config
 import Physt.Model.Special
@@ -235,6 +236,18 @@ def stepN (fo : FloatOps) (fuel : Nat) (s : StN) (op : Json) : E (StN × Json) :
   | "copy" =>
     let h ← s.get (← reg "h")
     pure (s.set (← reg "out") (h.copy (getBoolD op "with_freq" true)), Json.str "ok")
+  | "roundtrip" =>
+    -- `parse_json(h.to_json())`: the document written, and the object read back
+    let h ← s.get (← reg "h")
+    let d := h.toDict fo
+    let jb (b : BinningDict) : Json := match b with
+      | .static bs => Json.mkObj [("t", "static"), ("bins", jBins bs)]
+      | .fixed a c w sh t => Json.mkObj [("t", "fixed"), ("adaptive", a), ("count", Json.num c), ("w", jRat w),
+          ("shift", jRat sh), ("tmin", Json.num t)]
+    let doc := Json.mkObj [("histogram_type", d.histogramType), ("binnings", Json.arr (d.binnings.map jb).toArray),
+      ("shape", jNats d.shape), ("freq", jRats d.freq), ("err2", jRats d.err2), ("dtype", d.dtype.name),
+      ("missed", Json.arr (d.missed.map jNRat).toArray), ("missed_keep", d.missedKeep), ("axis_names", jStrs d.axisNames)]
+    pure (s.set (← reg "out") (HN.fromDict d), doc)
   | "invalid" => pure (s, Json.str "REFUSED")
   | _ => throw s!"unknown ND op {name}"
 
